@@ -233,8 +233,34 @@ pub fn check_soup(case: &Soup, obs: &mut Obs) -> CaseResult {
     Ok(())
 }
 
+/// Every strftime directive `%<modifier><char>` over printable ASCII, alone and after a valid item,
+/// with and without a zone argument: none may panic at construction or at encoding.
+fn sweep_date_directives(run: &Run) -> bool {
+    if run.worker.0 != 0 {
+        return true;
+    }
+    let modifiers = ["", "-", "_", "0", "#", ":", "::", ":::", ".", ".3", ".6", ".9", "3", "6", "9", "+"];
+    let mut ok = true;
+    for m in modifiers {
+        for c in 0x20u8..0x7f {
+            let ch = c as char;
+            if "{}()\\".contains(ch) {
+                continue;
+            }
+            for form in ["{{d(%{}{})}}", "{{d(%Y-%{}{})(utc)}}", "{{date(%{}{}%H)(local):>30}}"] {
+                let s = form.replacen("{}", m, 1).replacen("{}", &ch.to_string(), 1).replace("{{", "{").replace("}}", "}");
+                ok &= run.eval_one("date-directives", &Str(s), &check_str);
+            }
+        }
+    }
+    ok
+}
+
 pub fn run(run: &Run) {
     run.run_replays::<Str>("exhaustive", &check_str);
+    if sweep_date_directives(run) {
+        run.exhaustive("all strftime directives %<modifier><c> for 16 modifiers x printable ASCII c, in three date formatter shapes");
+    }
     run.run_replays::<Broken>("broken", &check_broken);
     run.run_replays::<Soup>("soup", &check_soup);
     let max_len = run.tier.pick(5, 6);
@@ -248,7 +274,7 @@ pub fn run(run: &Run) {
 
 pub fn replay(part: &str, case: serde_json::Value) -> Option<CaseResult> {
     match part {
-        "exhaustive" => Some(check_str(&serde_json::from_value(case).ok()?, &mut Obs::default())),
+        "exhaustive" | "date-directives" => Some(check_str(&serde_json::from_value(case).ok()?, &mut Obs::default())),
         "broken" => Some(check_broken(&serde_json::from_value(case).ok()?, &mut Obs::default())),
         "soup" => Some(check_soup(&serde_json::from_value(case).ok()?, &mut Obs::default())),
         _ => None,
